@@ -136,6 +136,41 @@ def _perturb(rec):
     # ordinary codec use: protocol headers of many versions offered by peers,
     # heartbeats, frames decoded and refused
     from pamqp import frame, header
+    # a cheap snapshot of both catalogues, compared after EVERY step below
+    # (a change that a later step happens to undo would escape the second
+    # walk)
+    def snap():
+        return (sorted((k, repr(v)) for k, v in vars(constants).items()
+                       if k.isupper()),
+                sorted((k, v.__name__, getattr(v, 'name', None),
+                        getattr(v, 'value', None))
+                       for k, v in dict.items(exceptions.CLASS_MAPPING)))
+    before = snap()
+    state = {'reported': False}
+
+    def unchanged(what):
+        if not state['reported'] and snap() != before:
+            state['reported'] = True
+            now = snap()
+            diff = [x for x in now[0] + now[1] if x not in before[0] +
+                    before[1]] + [x for x in before[0] + before[1]
+                                  if x not in now[0] + now[1]]
+            rec.violation('catalogue-changed-by-use',
+                          'constants / reply-code mapping changed after %s: '
+                          '%r' % (what, diff[:4]), {'step': what})
+    # looking codes up the ways a client does: known, unknown, success
+    for code in sorted(refspec.REPLY_CODES) + [200, 0, 599, 100, 65535, -1,
+                                               '404', None, 404.0]:
+        for fn in (lambda c: exceptions.CLASS_MAPPING[c],
+                   lambda c: exceptions.CLASS_MAPPING.get(c),
+                   lambda c: c in exceptions.CLASS_MAPPING,
+                   lambda c: exceptions.CLASS_MAPPING.get(
+                       c, exceptions.AMQPError)):
+            try:
+                fn(code)
+            except Exception:
+                pass
+        unchanged('looking up reply code %r' % (code,))
     for tri in [(0, 9, 0), (0, 8, 0), (0, 0, 9), (0, 10, 0), (1, 0, 0),
                 (0, 9, 1), (0, 0, 0), (255, 255, 255), (1, 1, 8)] + \
             [(a, b, c) for a in (0, 1) for b in range(0, 12)
@@ -144,6 +179,7 @@ def _perturb(rec):
         common.lib_unmarshal(b'AMQP' + bytes((tri[0], tri[0], tri[1],
                                               tri[2])))
         common.lib_marshal(header.ProtocolHeader(*tri), 0)
+        unchanged('decoding / encoding the protocol header %r' % (tri,))
     common.lib_unmarshal(b'\x08\x00\x00\x00\x00\x00\x00\xce')
     common.lib_unmarshal(b'\x01\x00\x01\x00\x00\x00\x04\x00\x0a\x00\x33\xce')
     # the frames that CARRY reply codes, as peers send them: every code with
